@@ -135,6 +135,17 @@ def r_literal_guard(F, R):
                         lits.append((bi, t))
                         selectors[bi] = _strip_opt(na[2][0])
     R.floor("R-GUARD", "literal store sites in encode", len(lits), 1)
+    if not _table_lookup_present(F, b):
+        if _mentions_field(F, b, "decode"):
+            R.undecided_site("R-GUARD", b.label(), "encode does not call the reader table's lookup (inlined or replaced) but reads "
+                             "the table another way: whether the literal store is guarded by it is not decided")
+        else:
+            for (bi, t) in lits:
+                R.check("R-GUARD", b.label(), False, construct="literal store not guarded by reader's tag table",
+                        where="%s:%s" % (b.file, t["line"]),
+                        detail="encode never consults the reader's table: a literal whose first byte is an assigned tag is stored "
+                               "as it is and reads back as the dictionary entry")
+        return
     def filtered_out(f):
         """`bytes.first().filter(|tag| self.decode.get(tag).is_some())` is None: the input is empty
         or its first byte is unassigned -- either admits the literal"""
@@ -176,6 +187,22 @@ def r_literal_guard(F, R):
                         e2.add((s_, tgt))
         reach = reachable_avoiding(b, 0, g2, e2)
         ok = bi not in reach if bi not in merged else not (merged[bi] & reach)
+        if not ok:
+            # the test may live in a closure a pipeline runs over the first byte
+            # (`bytes.iter().take(1).for_each(|tag| assert!(self.decode.get(tag).is_none()))`): a
+            # closure that looks the reader's table up and can diverge guards something, but which
+            # paths of encode it guards is not a path property of encode itself
+            from core import all_ctxs as _all_ctxs
+            guarded_in_closure = False
+            for c2 in _all_ctxs(F, b)[1:]:
+                looks_up = any(callee_tag(t2.get("callee")) == ("BytesMap", "get") for (_, t2) in c2.body.calls())
+                diverges = any(t2["k"] == "call" and t2.get("target") is None for t2 in (c2.body.term(x) for x in c2.body.live_blocks()))
+                if looks_up and diverges:
+                    guarded_in_closure = True
+            if guarded_in_closure:
+                R.undecided_site("R-GUARD", b.label(), "the reader's table is consulted, with a diverging outcome, inside a closure: "
+                                 "whether every literal store is covered by it is not decided")
+                continue
         # the "assigned" edge of the lookup must diverge: no path from the lookup's other edge to the store
         R.check("R-GUARD", b.label(), ok,
                 construct="literal store not guarded by reader's tag table",
@@ -524,13 +551,31 @@ def r_tags(F, R):
     nones = [(bi, t) for (bi, t) in pushes if (bi, t) not in somes]
     unknown = [(bi, t) for (bi, t) in nones if not (operand_tree(ctx, t["args"][1])[0] == "agg" and
                                                      operand_tree(ctx, t["args"][1])[1] == "Option::None")]
-    R.floor("R-TAGS", "table writes in new_from (inserts + pushes)", len(inserts) + len(pushes), 3)
+    from core import all_ctxs as _all_ctxs
+    in_closures = 0
+    for c2 in _all_ctxs(F, b)[1:]:
+        for (_, t2) in c2.body.calls():
+            if callee_tag(t2.get("callee")) in (("BTreeMap", "insert"), ("BytesMap", "push")):
+                in_closures += 1
+    R.floor("R-TAGS", "table writes in new_from (inserts + pushes)", len(inserts) + len(pushes) + in_closures, 3)
+    if in_closures:
+        # the tag loop is an iterator pipeline (`(0..=255).for_each(|tag| ..)`): the per-iteration
+        # path reasoning below does not apply to a closure body
+        R.undecided_site("R-TAGS", b.label(), "the tables are written inside a closure (%d writes): alignment of tags and "
+                         "table positions is not decided" % in_closures)
+        return
     if unknown and inserts:
         # one push shared by the assigned and the reserved case (`decode.push(entry.as_deref())`):
         # which table entry belongs to which tag is then a property of the value, not of the path
         R.undecided_site("R-TAGS", b.label(), "the reader table is written by a push whose value is not a plain Some(..)/None "
                          "(%s): alignment of tags and table positions is not decided" %
                          show(operand_tree(ctx, unknown[0][1]["args"][1]))[:100])
+        return
+    if inserts and not pushes:
+        # the reader table's push was written out in new_from (or the table type was replaced):
+        # how positions of that table line up with tags is then offset arithmetic
+        R.undecided_site("R-TAGS", b.label(), "new_from does not call the reader table's push (inlined or replaced): alignment of "
+                         "tags and table positions is not decided")
         return
     ok = len(inserts) == 1 and len(somes) == 1 and len(nones) >= 1
     why = []
@@ -631,7 +676,13 @@ def r_stats(F, R, cat=None):
             for (c, (r, p)) in e.targets or ():
                 if r == ("arg", 1) and p[:2] == ("f:stats", "f:1"):
                     bm.add(e.bb)
+                elif r == ("arg", 1) and p[:1] == ("f:stats",) and len(p) == 3 and p[2] == "[]" and p[1] != "f:0":
+                    bm.add(e.bb)  # the bitmap words under their field name (`stats.leading[i] |= ..`)
     empties = {bi for bi in b.live_blocks() if any(is_empty_fact(f, b.key) for f in facts_at(ctx, bi))}
+    if not bm and any(e.cls == "assign" and e.ctx is not ctx and any(
+            r == ("arg", 1) and p[:2] == ("f:stats", "f:1") for (c, (r, p)) in e.targets or ()) for e in effs):
+        R.undecided_site("R-STATS", b.label(), "the first-byte bitmap is written inside a closure: that it runs for every non-empty input is not decided")
+        return
     ok2 = bool(bm) and not b.can_return_avoiding(bm | empties)
     R.check("R-STATS", b.label(), ok2, construct="every non-empty accepted input records its first byte",
             where=b.where(), detail="bitmap stores at blocks %s; empty-input blocks %s" % (sorted(bm), sorted(empties)))
@@ -767,6 +818,26 @@ def _lookup_chain_none(F, f, key):
     return False
 
 
+def _mentions_field(F, b, name):
+    """some place in the body (or a closure / inlined helper of it) goes through the field `name`
+    of the codec"""
+    import json
+    from core import all_ctxs
+    needle = '"name": "%s"' % name
+    for c in all_ctxs(F, b):
+        raw = getattr(c.body, "raw", None) or {"blocks": c.body.blocks}
+        if needle in json.dumps(raw.get("blocks", raw)):
+            return True
+    return False
+
+
+def _table_lookup_present(F, b):
+    """the body (or a closure / inlined helper of it) still calls BytesMap::get: the reader-table
+    rules have their anchor"""
+    from core import all_ctxs
+    return any(callee_tag(t.get("callee")) == ("BytesMap", "get") for c in all_ctxs(F, b) for (_, t) in c.body.calls())
+
+
 def r_decode_total(F, R):
     """`DictionaryCodec::decode` maps a stored slice back to what was pushed: the table entry of
     its first byte when the reader's table has one, the slice itself otherwise.  Every way of
@@ -781,6 +852,9 @@ def r_decode_total(F, R):
     R.saw(b)
     ctx = Ctx(b)
     param = ("place", b.key, ("arg", 2), ())
+    if not _table_lookup_present(F, b):
+        R.undecided_site("R-DECODE", b.label(), "decode does not call the reader table's lookup (inlined or replaced): not decided")
+        return
 
     def admits(f):
         return is_empty_fact(f, b.key) or unassigned_fact(f, b.key) or _lookup_chain_none(F, f, b.key)
@@ -818,3 +892,181 @@ def r_decode_total(F, R):
             else:
                 R.undecided_site("R-DECODE", b.label(), "the argument is the fallback of %s, which is not recognisably the reader's table lookup" % show(opt)[:80])
     R.floor("R-DECODE", "returns of the argument in decode", n, 1)
+
+
+# ---------------------------------------------------------------------------------------------
+# R-BYTESMAP: an empty range encodes None; R-STATS-ORDER: the summary is ranked heaviest first
+
+
+def r_bytesmap(F, R):
+    """`BytesMap::push(None)` appends no bytes, so an unassigned slot is an *empty* range; `get`
+    must therefore answer Some only under a strict `lower < upper` test of the two offsets.  With
+    `<=` every reserved first byte reads as an (empty) dictionary entry."""
+    from expr import ret_alts, nobb, NONE
+    bodies = [b for b in F.bodies.values() if (b.self_adt or "").endswith("BytesMap") and b.name == "get" and not b.in_tests()]
+    if not bodies:
+        # the lookup was inlined into its callers (or the table type was replaced): no anchor
+        R.undecided_site("R-BYTESMAP", "BytesMap", "no BytesMap::get method on this tree: how an unassigned slot is told from an entry is not decided")
+        return
+    R.floor("R-BYTESMAP", "BytesMap::get", len(bodies), 1)
+    for b in bodies:
+        R.saw(b)
+        ctx = Ctx(b)
+        n = 0
+        for bi in sorted(b.live_blocks()):
+            for si, st in enumerate(b.blocks[bi]["stmts"]):
+                if not (st["k"] == "assign" and st["place"]["l"] == 0 and not st["place"]["p"] and st["rv"]["k"] == "aggregate" and
+                        st["rv"].get("variant_name") == "Some"):
+                    continue
+                n += 1
+                strict = [f for f in facts_at(ctx, bi) if f[0] in ("Lt", "Gt") and all(
+                    isinstance(x, tuple) and any(nd[0] == "place" and nd[2] == ("arg", 1) and nd[3][:1] == ("f:offsets",) for nd in walk(x))
+                    for x in f[1:3])]
+                weak = [f for f in facts_at(ctx, bi) if f[0] in ("Le", "Ge") and all(
+                    isinstance(x, tuple) and any(nd[0] == "place" and nd[2] == ("arg", 1) and nd[3][:1] == ("f:offsets",) for nd in walk(x))
+                    for x in f[1:3])]
+                if strict:
+                    R.check("R-BYTESMAP", b.label(), True, construct="an entry is Some only when its range is non-empty",
+                            where="%s:%s" % (b.file, st["line"]), detail="strict comparison of the two offsets")
+                elif weak:
+                    R.check("R-BYTESMAP", b.label(), False, construct="an entry is Some only when its range is non-empty",
+                            where="%s:%s" % (b.file, st["line"]),
+                            detail="Some is returned under a non-strict comparison of the two offsets: an empty range -- how "
+                                   "push(None) stores an unassigned slot -- reads back as an assigned, empty entry")
+                else:
+                    R.undecided_site("R-BYTESMAP", b.label(), "Some returned without a recognisable comparison of the two offsets")
+        if n == 0:
+            # combinator form `(lower < upper).then(|| ..)`
+            for (bi, t) in b.calls():
+                if callee_tag(t.get("callee")) in (("bool", "then"), ("bool", "then_some")) and t["args"]:
+                    c = nobb(operand_tree(ctx, t["args"][0]))
+                    n += 1
+                    if c[0] == "bin" and c[1] in ("Lt", "Gt"):
+                        R.check("R-BYTESMAP", b.label(), True, construct="an entry is Some only when its range is non-empty",
+                                where="%s:%s" % (b.file, t["line"]), detail="strict comparison of the two offsets")
+                    elif c[0] == "bin" and c[1] in ("Le", "Ge"):
+                        R.check("R-BYTESMAP", b.label(), False, construct="an entry is Some only when its range is non-empty",
+                                where="%s:%s" % (b.file, t["line"]), detail="non-strict comparison: an empty range reads back as an entry")
+                    else:
+                        R.undecided_site("R-BYTESMAP", b.label(), "then() condition not recognised: %s" % show(c)[:60])
+        if n == 0:
+            R.undecided_site("R-BYTESMAP", b.label(), "no Some result recognised")
+
+
+def r_done_lossless(F, R):
+    """`MisraGries::done` hands the ranking to `new_from`, which calls it on a *clone* of the
+    summary: what it returns must not depend on the allocation's capacity (a clone's capacity is
+    its length, not the 2k the summary was created with).  Positive evidence: in done (or a helper
+    inlined into it) a `truncate` / `pop` / weight subtraction whose amount or guard is derived from
+    `capacity()` -- the bound that `tidy` applies while the summary is live cuts a cloned summary in
+    half and subtracts the cut-off weight from the heavy hitters."""
+    from core import all_ctxs
+    from expr import nobb
+    MG = "impls::codec::misra_gries::MisraGries"
+    n = 0
+    for b in F.bodies.values():
+        if b.self_adt != MG or b.in_tests() or b.kind != "AssocFn" or b.name != "done":
+            continue
+        R.saw(b)
+        ctxs = list(all_ctxs(F, b))
+        seen = {b.key}
+        for ctx in list(ctxs):
+            for (bi, t) in ctx.body.calls():
+                ce = t.get("callee") or {}
+                if ce.get("local") and callee_tag(ce)[0] == "MisraGries":
+                    hb = F.body(((ce.get("resolved") or {}).get("key")) or ce.get("key"))
+                    if hb is not None and hb.key not in seen:
+                        seen.add(hb.key)
+                        ctxs.extend(all_ctxs(F, hb))  # a method of the summary that done() calls (not inlined)
+        for ctx in ctxs:
+            for (bi, t) in ctx.body.calls():
+                if callee_tag(t.get("callee"))[1] not in ("truncate", "pop", "drain", "split_off"):
+                    continue
+                n += 1
+                args = [nobb(operand_tree(ctx, a)) for a in t["args"][1:]]
+                dep = any(nd[0] == "call" and nd[1][1] == "capacity" for a in args for nd in walk(a))
+                if not dep:
+                    for f in facts_at(ctx, bi):
+                        if any(isinstance(x, tuple) and any(nd[0] == "call" and nd[1][1] == "capacity" for nd in walk(nobb(x)))
+                               for x in f[1:3]):
+                            dep = True
+                R.check("R-STATS", b.label(), not dep, construct="the ranking handed out does not depend on the allocation's capacity",
+                        where="%s:%s" % (ctx.body.file, t["line"]),
+                        detail="%s at block %d" % (callee_tag(t.get("callee"))[1], bi) +
+                        (": its amount or guard derives from capacity(); new_from calls done() on a clone, whose capacity is its "
+                         "length -- half of the distinct strings are cut and the cut-off weight is subtracted from the rest"
+                         if dep else ""))
+    R.info("R-STATS: %d shrinking calls in MisraGries::done inspected" % n)
+
+
+def r_stats_order(F, R):
+    """`MisraGries::tidy` keeps the first k entries after sorting and `done` hands the ranking to
+    `new_from`, which assigns tags in that order: both sorts must rank the heaviest first, i.e.
+    their comparison closures compare the *second* parameter's weight with the first's."""
+    from expr import nobb
+    MG = "impls::codec::misra_gries::MisraGries"
+    n = 0
+    for b in F.bodies.values():
+        if b.self_adt != MG or b.in_tests() or b.kind != "AssocFn":
+            continue
+        ctx = Ctx(b)
+        for (bi, t) in b.calls():
+            if callee_tag(t.get("callee"))[1] in ("sort_by_key", "sort_by_cached_key", "sort_unstable_by_key") and len(t["args"]) >= 2:
+                # `sort_by_key(|x| Reverse(x.1))`: descending by weight
+                clo_ = operand_tree(ctx, t["args"][1])
+                cb_ = F.body(clo_[1][len("closure:"):]) if clo_[0] == "agg" and str(clo_[1]).startswith("closure:") else None
+                if cb_ is not None:
+                    cc_ = Ctx(cb_)
+                    keys = [nobb(tree(cc_, o)) for o in cc_.org.local(0)]
+                    by_w = [k for k in keys if any(nd[0] == "place" and nd[1] == cb_.key and nd[3] and nd[3][-1] == "f:1" for nd in walk(k))]
+                    if by_w and len(by_w) == len(keys):
+                        n += 1
+                        R.saw(b)
+                        desc = all(k[0] == "agg" and str(k[1]).startswith("Reverse") for k in keys)
+                        R.check("R-STATS", b.label(), desc, construct="the summary is ranked heaviest first",
+                                where="%s:%s" % (b.file, t["line"]),
+                                detail="sort key %s" % show(keys[0])[:60] + ("" if desc else ": ascending by weight"))
+                continue
+            if callee_tag(t.get("callee"))[1] not in ("sort_by", "sort_unstable_by") or len(t["args"]) < 2:
+                continue
+            clo = operand_tree(ctx, t["args"][1])
+            if not (clo[0] == "agg" and str(clo[1]).startswith("closure:")):
+                continue
+            cb = F.body(clo[1][len("closure:"):])
+            if cb is None:
+                continue
+            cctx = Ctx(cb)
+            rets = [nobb(tree(cctx, o)) for o in cctx.org.local(0)]
+            recognised = False
+            for r in rets:
+                flip = False
+                while r[0] == "call" and r[1][1] == "reverse" and len(r[2]) == 1:
+                    r = r[2][0]  # `a.cmp(b).reverse()`
+                    flip = not flip
+                if r[0] == "call" and r[1][1] == "cmp" and len(r[2]) == 2:
+                    a, c = r[2]
+                    pa = [nd for nd in walk(a) if nd[0] == "place" and nd[1] == cb.key]
+                    pc = [nd for nd in walk(c) if nd[0] == "place" and nd[1] == cb.key]
+                    ra = [nd[2] for nd in pa]
+                    rc = [nd[2] for nd in pc]
+                    # only the ranking by *weight* (the second component of an entry); the sort by
+                    # element that consolidation does is ascending on purpose
+                    by_weight = all(nd[3] and nd[3][-1] == "f:1" for nd in pa + pc)
+                    if by_weight and len(set(ra)) == 1 and len(set(rc)) == 1 and ra[0][0] == "arg" and rc[0][0] == "arg" and ra[0] != rc[0]:
+                        n += 1
+                        recognised = True
+                        R.saw(b)
+                        desc = (ra[0][1] > rc[0][1]) != flip
+                        R.check("R-STATS", b.label(), desc, construct="the summary is ranked heaviest first",
+                                where="%s:%s" % (b.file, t["line"]),
+                                detail="comparison of parameter %d with parameter %d" % (ra[0][1] - 1, rc[0][1] - 1) +
+                                ("" if desc else ": ascending order -- tidy() then truncates away the heaviest entries and done() "
+                                                 "hands new_from the lightest strings first"))
+            if not recognised and any(nd[0] == "place" and nd[1] == cb.key and nd[3] and nd[3][-1] == "f:1"
+                                      for r in rets for nd in walk(r)) and \
+                    not any(nd[0] == "place" and nd[1] == cb.key and nd[3] and nd[3][-1] == "f:0" for r in rets for nd in walk(r)):
+                n += 1
+                R.undecided_site("R-STATS", b.label(), "the comparison at %s:%s looks at the weights in a shape the rule does not "
+                                 "read (%s): which end of the ranking is the heaviest is not decided" %
+                                 (b.file, t["line"], show(rets[0])[:80] if rets else "?"))
+    R.floor("R-STATS", "ranking sorts of the heavy-hitter summary", n, 2)
